@@ -270,32 +270,61 @@ def r2(ctx):
     ctx.note("P (6) is accepted as non-consuming by _iterate_cigar and _detect_alleles but rejected by cigar_prefix_length with an assertion; P is outside C06's quantifier (S, H, I, D, N, =, X)")
 
 
+def _ops_of(ga, var="cigar_op"):
+    """CIGAR operator codes 0..8 that satisfy every guard atom which talks about the operator only."""
+    ops = []
+    for op in range(0, 9):
+        ok = True
+        for t, pol in ga:
+            try:
+                tree = ast.parse(t, mode="eval")
+            except SyntaxError:
+                continue
+            names = {n.id for n in ast.walk(tree) if isinstance(n, ast.Name)}
+            if names != {var}:
+                continue
+            if not all(isinstance(n, (ast.Expression, ast.Compare, ast.BoolOp, ast.UnaryOp, ast.Constant, ast.Tuple, ast.List, ast.Set, ast.Name, ast.cmpop, ast.boolop, ast.unaryop, ast.Load)) for n in ast.walk(tree)):
+                continue
+            if bool(eval(compile(tree, "<op>", "eval"), {"__builtins__": {}}, {var: op})) != pol:
+                ok = False
+                break
+        if ok:
+            ops.append(op)
+    return ops
+
+
 def r3(ctx):
     it = ctx.func(VP + "._iterate_cigar")
     cfg = ctx.cfg(it)
     ys = [n for n in walk_function(it.node) if isinstance(n, ast.Expr) and isinstance(n.value, ast.Yield)]
-    ctx.require(len(ys) == 3, "expected three yields in _iterate_cigar")
+    ctx.require(len(ys) >= 3, "expected at least three yields in _iterate_cigar")
+    seen_regions = set()
     for y in ys:
         ga = guard_atoms(cfg, cfg.node_of(y))
         tup = [u(e) for e in y.value.value.elts]
         lfs = [linear(e) for e in y.value.value.elts]
-        if ("cigar_op in (0, 7, 8)", True) in ga:
+        ops = _ops_of(ga)
+        # the region is decided by the operator codes that can reach the yield, not by the spelling of the test
+        if ops and set(ops) <= {0, 7, 8}:
             region = "match"
             ok = ("v_position < ref_pos + length", True) in ga and ("v_position < ref_pos", False) in ga and ("j < n", True) in ga
             okt = tup[:2] == ["j", "i"] and lfs[2] == {"v_position": 1, "ref_pos": -1} and lfs[3] == {"query_pos": 1, "v_position": 1, "ref_pos": -1}
-        elif ("1 == cigar_op", True) in ga:
+        elif ops == [1]:
             region = "insertion"
             ok = ("ref_pos == v_position", True) in ga and ("j < n", True) in ga
             okt = tup[:2] == ["j", "i"] and lfs[2] == {} and lfs[3] == {"query_pos": 1}
-        elif ("2 == cigar_op", True) in ga:
+        elif ops == [2]:
             region = "deletion"
             ok = ("v_position < ref_pos + length", True) in ga and ("v_position < ref_pos", False) in ga and ("j < n", True) in ga
             okt = tup[:2] == ["j", "i"] and lfs[2] == {"v_position": 1, "ref_pos": -1} and lfs[3] == {"query_pos": 1}
         else:
-            region = "?"
+            region = "ops=%s" % ops
             ok = okt = False
+        seen_regions.add(region)
         ctx.ob(it.qual, "overlap-guard:%s" % region, ok, it.loc(y), "a variant is yielded in a %s region only if it lies inside it" % region if ok else "yield in %s region is not dominated by the overlap guards (%s)" % (region, sorted(t for t, p in ga if "v_position" in t)))
-        ctx.ob(it.qual, "split-point-and-query-offset:%s" % region, okt, it.loc(y), "yield %s" % tup if okt else "yielded tuple %s does not have the expected split point / query offset" % tup)
+        ctx.ob(it.qual, "split-point-and-query-offset:%s" % region, okt, it.loc(y), "yield %s" % tup if okt else "yielded tuple %s does not have the expected split point / query offset for operators %s" % (tup, ops))
+    okr = {"match", "insertion", "deletion"} <= seen_regions
+    ctx.ob(it.qual, "all-three-regions-yield", okr, it.loc(), "match, insertion and deletion regions each have a yield" if okr else "regions with a yield: %s" % sorted(seen_regions))
     # v_position is the current variant's position wherever it is used
     defs = [v for s, v in util.assignments_to(it.node, "v_position") if isinstance(v, ast.AST)]
     ok = len(defs) >= 4 and all(u(v) == "variants[j].position" for v in defs)
@@ -344,16 +373,18 @@ def r4(ctx):
     ctx.ob(fi.qual, "left-pad", ok, fi.loc(), "left_pad = reference[pos - left_ref_bases : pos]" if ok else "left_pad is %s" % (u(lp) if lp is not None else "?"))
     ok = okp and rp is not None and u(rp.value) == "reference" and _slice_lin(rp) == ({"pos": 1, "len(variant.reference_allele)": 1}, {"pos": 1, "right_ref_bases": 1})
     ctx.ob(fi.qual, "right-pad", ok, fi.loc(), "right_pad = reference[pos + len(REF) : pos + right_ref_bases]" if ok else "right_pad is %s" % (u(rp) if rp is not None else "?"))
-    pa = util.single_def(fi.node, "padded_alleles")
-    ok = pa is not None and isinstance(pa, ast.List) and len(pa.elts) == 1 and isinstance(pa.elts[0], ast.Subscript) and u(pa.elts[0].value) == "reference" and _slice_lin(pa.elts[0]) == ({"pos": 1, "left_ref_bases": -1}, {"pos": 1, "right_ref_bases": 1})
-    ctx.ob(fi.qual, "reference-allele-window", ok, fi.loc(), "padded REF = reference[pos - left_ref_bases : pos + right_ref_bases] (same flanks as the pads)" if ok else "the padded reference allele is cut with other bounds than the pads")
-    apps = [c for c in ctx.prog.calls_in(fi.node) if u(c.func) == "padded_alleles.append"]
-    ok = len(apps) == 1 and u(apps[0].args[0]) == "left_pad + alt + right_pad"
-    lpn = apps[0] if apps else None
-    while lpn is not None and not isinstance(lpn, ast.For):
-        lpn = getattr(lpn, "parent", None)
-    ok = ok and lpn is not None and u(lpn.iter) == "variant.get_alt_allele_list()" and u(lpn.target) == "alt"
-    ctx.ob(fi.qual, "every-alt-gets-the-same-pads", ok, fi.loc(apps[0]) if apps else fi.loc(), "every ALT is left_pad + alt + right_pad, in ALT order (index = allele number)" if ok else "ALT alleles are not padded as left_pad + alt + right_pad in order")
+    # padded_alleles = [padded REF] followed by one padded allele per ALT, in ALT order (index = allele number) --
+    # however the list is put together (display + append loop, display + comprehension, ...)
+    shape = util.list_shape(fi.node, "padded_alleles")
+    if shape is None:
+        ctx.ob(fi.qual, "reference-allele-window", None, fi.loc(), "cannot tell how padded_alleles is built")
+    else:
+        first = util.resolve_locals(fi.node, shape[0][1], keep=("pos",)) if shape and shape[0][0] == "one" else None
+        ok = first is not None and isinstance(first, ast.Subscript) and isinstance(first.slice, ast.Slice) and u(first.value) == "reference" and _slice_lin(first) == ({"pos": 1, "left_ref_bases": -1}, {"pos": 1, "right_ref_bases": 1})
+        ctx.ob(fi.qual, "reference-allele-window", ok, fi.loc(), "padded REF = reference[pos - left_ref_bases : pos + right_ref_bases] (same flanks as the pads) is allele 0" if ok else "the padded reference allele (first entry of padded_alleles) is %s, not the reference cut with the bounds of the pads" % (u(first)[:80] if first is not None else "not a single expression"))
+        rest = shape[1:]
+        ok = len(rest) == 1 and rest[0][0] == "each" and rest[0][3] == "variant.get_alt_allele_list()" and u(util.resolve_locals(fi.node, rest[0][1], keep=("left_pad", "right_pad"))) == "left_pad + %s + right_pad" % rest[0][2]
+        ctx.ob(fi.qual, "every-alt-gets-the-same-pads", ok, fi.loc(), "every ALT is left_pad + alt + right_pad, in ALT order (index = allele number)" if ok else "ALT alleles are not padded as left_pad + alt + right_pad in ALT order: %s" % [(k[0], u(k[1])[:50]) for k in rest])
     # kmerald branch: ref_temp / alt_temp / query_temp
     rt = util.single_def(fi.node, "ref_temp")
     qt = util.single_def(fi.node, "query_temp")
@@ -398,12 +429,13 @@ def r5(ctx):
     idx_rets = [r for r in rets if isinstance(r.value, ast.Tuple) and not (isinstance(r.value.elts[0], ast.Constant) and r.value.elts[0].value is None)]
     n_edit = 0
     for r in idx_rets:
-        ga = guard_atoms(cfg, cfg.node_of(r))
-        first = u(r.value.elts[0])
+        ga = util.resolved_guard_atoms(cfg, fi.node, cfg.node_of(r))
+        first = u(util.resolve_locals(fi.node, r.value.elts[0]))
         if first == "distances[0][0]":
             n_edit += 1
-            strict = [t for t, p in ga if p and "distances[0][1] < distances[1][1]" in t and "1 == len(distances)" in t]
-            ok = bool(strict)
+            single = ("1 == len(distances)", True) in ga
+            strict = ("distances[0][1] < distances[1][1]", True) in ga or any(p and "distances[0][1] < distances[1][1]" in t and "1 == len(distances)" in t and " or " in t for t, p in ga)
+            ok = single or strict
             ctx.ob(fi.qual, "index-only-if-unique-best", ok, fi.loc(r), "an allele index is returned only under `single candidate or best distance strictly smaller than the second`" if ok else "the allele index is returned without the strict `best < second` test (ties are guessed)")
         elif first in ("0", "1"):
             want = ("distance_ref < distance_alt", True) if first == "0" else ("distance_alt < distance_ref", True)
@@ -411,12 +443,12 @@ def r5(ctx):
             ctx.ob(fi.qual, "kmerald-index:%s" % first, ok, fi.loc(r), "kmerald returns %s only when its distance is strictly smaller" % ("REF" if first == "0" else "ALT") if ok else "kmerald return %s is not under the strict comparison" % first)
         else:
             ctx.ob(fi.qual, "index-return:%s" % first, False, fi.loc(r), "unexpected allele-index return %s" % u(r.value))
-    ctx.require(n_edit == 1, "return of distances[0][0] not found")
+    ctx.require(n_edit >= 1, "return of distances[0][0] not found")
     none_rets = [r for r in rets if r not in idx_rets]
     ok = len(none_rets) >= 3 and all(u(r.value) == "(None, None)" for r in none_rets)
     ctx.ob(fi.qual, "otherwise-no-allele", ok, fi.loc(), "every other return is (None, None)" if ok else "a non-index return is not (None, None)")
     srt = [c for c in ctx.prog.calls_in(fi.node) if u(c.func) == "distances.sort"]
-    ok = len(srt) == 2 and all(not any(k.arg == "reverse" for k in c.keywords) and any(k.arg == "key" and isinstance(k.value, ast.Lambda) and u(k.value.body).endswith("[1]") for k in c.keywords) for c in srt)
+    ok = len(srt) >= 1 and all(not any(k.arg == "reverse" for k in c.keywords) and any(k.arg == "key" and isinstance(k.value, ast.Lambda) and u(k.value.body).endswith("[1]") for k in c.keywords) for c in srt)
     ctx.ob(fi.qual, "distances-sorted-ascending", ok, fi.loc(), "candidates are sorted by ascending distance: index 0 is the best" if ok else "distances are not sorted ascending by distance")
     # totality: distances[0] needs a non-empty candidate list
     dd = [(s, v) for s, v in util.assignments_to(fi.node, "distances") if isinstance(v, ast.ListComp)]
@@ -531,4 +563,4 @@ RULES = [
     ("C06.R7", "variant normalisation strips only bases shared by all alleles", r7),
     ("C06.R8", "variant cursor skips only variants strictly left of the read", r8),
 ]
-FLOORS = {"C06.R1": 28, "C06.R2": 6, "C06.R3": 8, "C06.R4": 13, "C06.R5": 10, "C06.R6": 4, "C06.R7": 4, "C06.R8": 4}
+FLOORS = {"C06.R1": 28, "C06.R2": 6, "C06.R3": 9, "C06.R4": 13, "C06.R5": 10, "C06.R6": 4, "C06.R7": 4, "C06.R8": 4}
